@@ -248,29 +248,43 @@ def sany(spec: str) -> tuple[bool, str]:
 
 def batch_validate(spec: str, cfg: str, cases: list, scratch: str, *, chunk: int = 400,
                    timeout: int = 1800, workers: int | str = 'auto', env: dict | None = None,
-                   key: str = 'TRACE_FILE') -> tuple[list, int, int, list]:
+                   key: str = 'TRACE_FILE', parallel: int = 1) -> tuple[list, int, int, list]:
     """Validate ``cases`` (JSON-able list) with a total-verdict trace spec.
 
     The spec reads ``JsonDeserialize(IOEnv.TRACE_FILE)`` (a JSON array), starts one behaviour
     per case (``tid``), and prints ``<<"VERDICT", tid, step, clause>>`` for each rejected case.
     Returns (verdicts [(case_index, step, clause, extra)], states, transitions, raw results).
     A TLC failure raises MachineryError: a crash of the checker never counts as acceptance.
+    ``parallel`` > 1 runs that many TLC JVMs side by side (trace validation is embarrassingly
+    parallel across cases, while one JVM mostly serialises on its initial-state set).
     """
     verdicts = []
     states = trans = 0
     results = []
-    for base in range(0, len(cases), chunk):
+    if parallel > 1 and len(cases) > parallel:
+        chunk = min(chunk, -(-len(cases) // parallel))
+    bases = list(range(0, len(cases), chunk))
+
+    def one(base):
         part = cases[base:base + chunk]
         fd, path = tempfile.mkstemp(prefix='trace', suffix='.json', dir=scratch)
         with os.fdopen(fd, 'w') as f:
             json.dump(part, f)
         e = {key: path}
         e.update(env or {})
-        r = tlc(spec, cfg, env=e, timeout=timeout, workers=workers, scratch=scratch)
+        r = tlc(spec, cfg, env=e, timeout=timeout, workers=(workers if parallel <= 1 else 2), scratch=scratch,
+                heap='8g' if parallel <= 1 else '3g')
         os.unlink(path)
+        return base, r
+    if parallel > 1 and len(bases) > 1:
+        from concurrent.futures import ThreadPoolExecutor
+        with ThreadPoolExecutor(parallel) as ex:
+            done = list(ex.map(one, bases))
+    else:
+        done = [one(b) for b in bases]
+    for base, r in done:
         if not r.ok:
             raise MachineryError('TLC failed on %s: %s' % (os.path.basename(spec), r.error or r.out[-2000:]))
-        done = [v for v in r.prints if v and v[0] == 'DONE']
         results.append(r)
         states += r.distinct
         trans += r.states
